@@ -44,7 +44,7 @@ class HelloFactory(sk.protocol.Factory):
 REPLY_OK = b"\x05\x00\x00\x01\x01\x02\x03\x04\x00\x50"
 
 
-def vector(req, kind, host, port, sel="ok", tls=False):
+def vector(req, kind, host, port, sel="ok", tls=False, beside=""):
     """run one request through the public entry point and record what was written: before the server's
     method selection (first), after a partial selection message (mid), after the whole of it (second)"""
     ep = sk.FakeProxyEndpoint()
@@ -60,6 +60,17 @@ def vector(req, kind, host, port, sel="ok", tls=False):
         else:
             d = socks.resolve_ptr(ep, host)
         d.addBoth(fired.append)
+        if beside:
+            # meanwhile another part of the application turns to the same host: a connection to another of its ports, or
+            # a look-up of it, is started before the proxy has answered anything on ours
+            ep2 = sk.FakeProxyEndpoint()
+            if beside == "connect":
+                d2 = socks.TorSocksEndpoint(ep2, host, 65535 - port if port != 32767 else 1).connect(sk.AppFactory())
+            elif beside == "resolve":
+                d2 = socks.resolve(ep2, host)
+            else:
+                d2 = socks.resolve_ptr(ep2, host)
+            d2.addErrback(lambda f: None)
     except Exception:
         err = True
     first = b""
@@ -98,4 +109,4 @@ def vector(req, kind, host, port, sel="ok", tls=False):
     if kind in ("v4", "v6"):
         addr = ipaddress.ip_address(host).packed
     return dict(req=req, kind=kind, name=list(name), addr=list(addr), port=port if req == "CONNECT" else 0,
-                first=list(first), mid=list(mid), second=list(second), err=err, host=host, sel=sel, tls=bool(tls))
+                first=list(first), mid=list(mid), second=list(second), err=err, host=host, sel=sel, tls=bool(tls), beside=beside)
